@@ -223,21 +223,15 @@ func hashb(b []byte) uint64 {
 	return h
 }
 
-// probeServer adds the debug-only request verif/getDocument to the generated
-// dispatcher; every other method is delegated untouched.
-type probeServer struct {
-	protocol.Server
-	srv *server.Server
-}
-
-func (p *probeServer) Request(ctx context.Context, method string, params interface{}) (interface{}, error) {
-	if method == "verif/getDocument" {
-		m, _ := params.(map[string]interface{})
-		u, _ := m["uri"].(string)
-		text, ok := p.srv.GetDocument(protocol.DocumentURI(u))
-		return map[string]interface{}{"present": ok, "text": text}, nil
+// getDocument answers the debug-only request verif/getDocument, which reads the
+// server's copy of a document on the dispatcher task, over the wire.
+func getDocument(srv *server.Server, raw json.RawMessage) interface{} {
+	var m struct {
+		URI string `json:"uri"`
 	}
-	return p.Server.Request(ctx, method, params)
+	json.Unmarshal(raw, &m)
+	text, ok := srv.GetDocument(protocol.DocumentURI(m.URI))
+	return map[string]interface{}{"present": ok, "text": text}
 }
 
 // simClient wraps the real protocol.Client: notifications are preemption
@@ -310,8 +304,9 @@ func Start(s *simrt.Sched) *Session {
 	sess.Activate()
 	srv := server.NewServer()
 	sess.Srv = srv
-	disp := &probeServer{Server: newServerDispatcher(srv), srv: srv}
-	inner := protocol.ServerHandler(disp, nil)
+	// buildHandler is generated by the instrumenter: cmd/hledger-lsp's own
+	// newHandler(srv) when main.go has one, else ServerHandler over the dispatcher
+	inner := buildHandler(srv)
 	handler := func(ctx context.Context, reply jsonrpc2.Replier, req jsonrpc2.Request) (err error) {
 		defer func() {
 			if r := recover(); r != nil {
@@ -323,6 +318,9 @@ func Start(s *simrt.Sched) *Session {
 				err = nil
 			}
 		}()
+		if req.Method() == "verif/getDocument" {
+			return reply(ctx, getDocument(srv, req.Params()), nil)
+		}
 		return inner(ctx, reply, req)
 	}
 	stream := jsonrpc2.NewStream(rwc{s: sess, readFailed: new(bool)})
